@@ -227,6 +227,47 @@ def directed() -> Iterator[Tuple[str, G.Script]]:
         s.round(dt=6000)
         yield f"dynamic_id_churn_{keep}", probe(s)
 
+    # --- DEBUG points: a listener of RTMA_LOG_DEBUG (or of everything) whose socket is broken / not writable is met by
+    # the debug line of each operation: the requester itself (F13), or a bystander, or the module being removed
+    for op in ("sub", "suball", "unsub", "pause", "resume", "setname", "ready", "data", "disc", "connect_named",
+               "tick_traffic", "tick_active", "dies"):
+        for who in ("self", "other"):
+            for how in ("hdr", "pay", "notw"):
+                s = G.Script(); s.accept(4)
+                s.round([s.rd(2, cd.MT_CONNECT, G.p_connect(), src=11)])
+                s.round([s.rd(3, cd.MT_CONNECT_V2, G.p_connect_v2(mod_id=12, name=b"watcher"))])
+                s.round([s.rd(3, cd.MT_SUBSCRIBE, G.p_i32(cd.MT_CLIENT_CLOSED))])
+                s.round([s.rd(3, cd.MT_SUBSCRIBE, G.p_i32(cd.MT_FAILED_MESSAGE))])
+                s.round([s.rd(3, cd.MT_SUBSCRIBE, G.p_i32(cd.MT_CLIENT_INFO))])
+                s.round([s.rd(2, cd.MT_SUBSCRIBE, G.p_i32(5000))])
+                lis = 1 if who == "self" else 4
+                if op != "connect_named" or who == "other":
+                    s.round([s.rd(1, cd.MT_CONNECT, G.p_connect(), src=10)])
+                s.round([s.rd(lis, cd.MT_SUBSCRIBE, G.p_i32(cd.MT_RTMA_LOG_DEBUG if how != "pay" else cd.ALL_MESSAGE_TYPES))])
+                if op in ("unsub", "pause", "resume"):
+                    s.round([s.rd(1, cd.MT_SUBSCRIBE, G.p_i32(5001))])
+                kw = dict(fail={lis: how}) if how != "notw" else dict(writable=[u for u in (1, 2, 3, 4) if u != lis])
+                fr = {"sub": lambda: s.rd(1, cd.MT_SUBSCRIBE, G.p_i32(5002)),
+                      "suball": lambda: s.rd(1, cd.MT_SUBSCRIBE, G.p_i32(cd.ALL_MESSAGE_TYPES)),
+                      "unsub": lambda: s.rd(1, cd.MT_UNSUBSCRIBE, G.p_i32(5001)),
+                      "pause": lambda: s.rd(1, cd.MT_PAUSE_SUBSCRIPTION, G.p_i32(5001)),
+                      "resume": lambda: s.rd(1, cd.MT_RESUME_SUBSCRIPTION, G.p_i32(5001)),
+                      "setname": lambda: s.rd(1, cd.MT_CLIENT_SET_NAME, G.p_name(b"renamed")),
+                      "ready": lambda: s.rd(1, cd.MT_MODULE_READY, G.p_i32(777)),
+                      "data": lambda: s.rd(1, 5000, b"payload", src=10),
+                      "disc": lambda: s.rd(1, cd.MT_DISCONNECT),
+                      "connect_named": lambda: s.rd(1 if who == "self" else 4, cd.MT_CONNECT_V2,
+                                                    G.p_connect_v2(mod_id=20, name=b"newcomer")),
+                      "dies": lambda: s.rd(2, 5000, b"", nbytes=-5)}
+                if op == "tick_traffic":
+                    s.round([s.rd(2, 5000, b"z", src=11)], dt=1100, **kw)
+                elif op == "tick_active":
+                    s.round([s.rd(2, 5000, b"z", src=11)], dt=6000, **kw)
+                else:
+                    s.round([fr[op]()], **kw)
+                s.round([s.rd(2, 5000, b"after", src=11)])
+                yield f"debug_{op}_{who}_{how}", probe(s)
+
     # --- re-entrancy: while a manager-originated message is being delivered, the failure handling publishes further
     # manager messages which are themselves undeliverable somewhere
     for order_first in ("failing", "healthy"):
@@ -424,5 +465,5 @@ def subsets_scenarios() -> Iterator[Tuple[str, G.Script]]:
 
 
 def configs(rng, deep: bool) -> Dict[str, Any]:
-    return dict(timecode=rng.random() < 0.3, log_level=rng.choice([100, 100, 100, 40, 30, 20]),
+    return dict(timecode=rng.random() < 0.3, log_level=rng.choice([100, 100, 100, 40, 30, 20, 10, 10]),
                 timing=rng.random() < 0.85, order=rng.choice(["fwd", "fwd", "rev"]))
